@@ -70,6 +70,17 @@ def cases(tier, seed):
                 for i in range(n):
                     for j in range(n):
                         out.append(dict(base, which="hess", i=i, j=j, mag="drop"))
+    # matrices in compressed storage with repeated stored entries (unscaled, so that they reach the checker as returned)
+    for ti, (vk, obj, rows) in enumerate(table(tier)):
+        n, m = len(vk), len(rows)
+        for fmt in ("csr_dup", "csc_dup", "coo_dup"):
+            base = {"ti": ti, "x0i": 2, "si": 0, "tier": tier, "fmt": fmt}
+            out.append(dict(base, which="none"))
+            for j in range(n):
+                for i in range(m):
+                    out.append(dict(base, which="jac", i=i, j=j, mag=30.0))
+                for i in range(n):
+                    out.append(dict(base, which="hess", i=i, j=j, mag=30.0))
     # start points with small but non-zero components (1e-6, -1e-9, 1e-12)
     for ti, (vk, obj, rows) in enumerate(table(tier)):
         n, m = len(vk), len(rows)
@@ -162,7 +173,7 @@ def run_case(case):
     else:
         vk, obj, rows = table(case["tier"])[case["ti"]]
         n, m = len(vk), len(rows)
-        spec = S.mk(n, obj, rows, vk, x0_idx=case["x0i"], tight=False)
+        spec = S.mk(n, obj, rows, vk, x0_idx=case["x0i"], tight=False, fmt=case.get("fmt", "coo"))
         sc = S.scalings(n, m, [0.625, -1.25, 0.75][:n])[case["si"]]
         y0 = [0.75, -1.25][:m]
         if case.get("x0_small"):
